@@ -35,7 +35,8 @@ INF = float("inf")
 NAN = float("nan")
 # counters every complete run must have incremented (one per predicate family / input class); see core.run_check
 EXPECT_COUNTS = ["kernel_grid_points", "kernel_grid:infinite-spec", "oracle_grid_points", "oracle_grid:infinite", "oracle_means:list", "oracle_means:da",
-                 "oracle_means:da_b", "oracle_means:infinite", "murphy:ok", "murphy:err", "murphy:infinite", "functional:quantile", "functional:huber",
+                 "oracle_means:da_b", "oracle_means:infinite", "oracle_means:obs-only-dim", "murphy:obs-only-dim", "murphy:defaults-omitted",
+                 "murphy:defaults-explicit", "thetas:defaults-omitted", "thetas:defaults-explicit", "defaults_corpus", "murphy:ok", "murphy:err", "murphy:infinite", "functional:quantile", "functional:huber",
                  "functional:expectile", "thetas:DataArray", "thetas:list", "thetas:ok", "thetas:err", "thetas:infinite-forecast", "thetas:infinite-obs",
                  "dtype:int", "dtype:float32", "diagram_rounds", "diagram:infinite", "guard_probes", "ragged_corpus", "label_sets_corpus", "fine_thetas"]
 # repaired by repo_fixes/murphy-infinite-forecast.diff: an infinite forecast scored 0 for the quantile and Huber functionals
@@ -126,13 +127,26 @@ def inf_fcst_key(fn, fcsts, got, defect_value):
     return KEY_INF_FCST if all(core.close(g, w) for g, w in zip(got, dv)) else None
 
 
-def call_murphy(fcst, obs, thetas, fn, alpha, huber_a, dec, rd, pd):
-    kw = dict(functional=fn, alpha=float(alpha), decomposition=dec)
-    if huber_a is not None:
-        kw["huber_a"] = float(huber_a)
-    if rd is not None:
+def must(ctx, case, fn, *args, **kw):
+    """a call on valid input: the value, or None after recording the violation that the call raised (a valid input that is now rejected)"""
+    st, v = core.call_impl(fn, *args, **kw)
+    if st != "ok":
+        ctx.violation(f"{fn.__name__} raised on valid input", dict(case, kwargs={k: x for k, x in kw.items() if not isinstance(x, xr.DataArray)}), "values", v)
+        return None
+    return v
+
+
+def call_murphy(fcst, obs, thetas, fn, alpha, huber_a, dec, rd, pd, explicit=True):
+    """explicit=False: every optional argument that is at its documented default (huber_a=None, decomposition=False, reduce_dims=None,
+    preserve_dims=None) is OMITTED from the call; explicit=True: every one of them is written out"""
+    kw = dict(functional=fn, alpha=float(alpha))
+    if dec or explicit:
+        kw["decomposition"] = dec
+    if huber_a is not None or explicit:
+        kw["huber_a"] = None if huber_a is None else float(huber_a)
+    if rd is not None or explicit:
         kw["reduce_dims"] = rd
-    if pd is not None:
+    if pd is not None or explicit:
         kw["preserve_dims"] = pd
     return core.call_impl(S().murphy_score, fcst, obs, thetas, **kw)
 
@@ -195,9 +209,16 @@ def murphy_cases(ctx, n):
             break
         sizes = gens.rand_sizes(rng)
         perms = {d: rng.sample(range(sizes[d]), sizes[d]) for d in sizes}
-        fcst = mk(rng, sizes, sizes, perms, nan_p=0.12 if rng.random() < 0.4 else 0.0)
+        fdims, odims = list(sizes), gens.sub_dims(rng, sizes, p_drop=0.25)
+        obs_only = len(sizes) > 1 and rng.random() < 0.3
+        if obs_only:        # a dimension only the observations have: one standing forecast per station against a series of observations
+            fdims = gens.sub_dims(rng, sizes, p_drop=0.5, keep_at_least=1)
+            if len(fdims) == len(sizes):
+                fdims.pop(rng.randrange(len(fdims)))
+            odims = [d for d in sizes if d not in fdims] + [d for d in fdims if rng.random() < 0.6]
+        fcst = mk(rng, sizes, fdims, perms, nan_p=0.12 if rng.random() < 0.4 else 0.0)
         operms = {d: rng.sample(range(sizes[d]), sizes[d]) for d in sizes}
-        obs = mk(rng, sizes, gens.sub_dims(rng, sizes, p_drop=0.25), operms, nan_p=0.12 if rng.random() < 0.3 else 0.0)
+        obs = mk(rng, sizes, odims, operms, nan_p=0.12 if rng.random() < 0.3 else 0.0)
         if rng.random() < 0.4:
             obs = gens.force_ties(rng, fcst, obs)
         infinite = rng.random() < 0.25
@@ -222,11 +243,13 @@ def murphy_cases(ctx, n):
                 huber_a = rng.choice([None, Fr(0), Fr(-1)])
         dec = rng.random() < 0.5
         rd, pd = gens.rand_dimspec(rng, list(sizes), allow_bad=bad)
-        impl = call_murphy(fcst, obs, thetas, fname, alpha, huber_a, dec, rd, pd)
+        explicit = rng.random() < 0.4
+        impl = call_murphy(fcst, obs, thetas, fname, alpha, huber_a, dec, rd, pd, explicit=explicit)
         m = model_murphy(ctx, fcst, obs, thetas, fname, alpha, huber_a, dec, rd, pd)
         ok, why = compare_ds(impl, m, dec)
         d = {"fn": "murphy_score", "fcst": gens.da_repr(fcst), "obs": gens.da_repr(obs), "thetas": gens.da_repr(thetas) if isinstance(thetas, xr.DataArray) else thetas,
-             "functional": fname, "alpha": alpha, "huber_a": huber_a, "decomposition": dec, "reduce_dims": rd, "preserve_dims": pd}
+             "functional": fname, "alpha": alpha, "huber_a": huber_a, "decomposition": dec, "reduce_dims": rd, "preserve_dims": pd,
+             "optional_arguments_at_default": "written out" if explicit else "omitted"}
         nontrivial = impl[0] == "err" or bool(np.isfinite(np.asarray(impl[1]["total"])).any())
         ctx.case(d, nontrivial)
         ctx.count("murphy:" + ("ok" if impl[0] == "ok" else impl[1]))
@@ -234,6 +257,9 @@ def murphy_cases(ctx, n):
         ctx.count("thetas:" + ("DataArray" if isinstance(thetas, xr.DataArray) else "list"))
         if infinite and impl[0] == "ok":
             ctx.count("murphy:infinite")
+        if obs_only and impl[0] == "ok":
+            ctx.count("murphy:obs-only-dim")
+        ctx.count("murphy:defaults-" + ("explicit" if explicit else "omitted"))
         if i < 2:
             ctx.sample(d)
         if not ok:
@@ -296,10 +322,12 @@ def thetas_cases(ctx, n):
             elif fn == "huber":
                 huber_a = rng.choice([None, Fr(0), Fr(-1, 2)])
         kw = {}
-        if huber_a is not None:
-            kw["huber_a"] = float(huber_a)
-        if delta is not None:
-            kw["left_limit_delta"] = float(delta)
+        explicit = rng.random() < 0.4       # optional arguments at their default (None): written out / omitted
+        if huber_a is not None or explicit:
+            kw["huber_a"] = None if huber_a is None else float(huber_a)
+        if delta is not None or explicit:
+            kw["left_limit_delta"] = None if delta is None else float(delta)
+        ctx.count("thetas:defaults-" + ("explicit" if explicit else "omitted"))
         impl = core.call_impl(C.murphy_thetas, fcsts, obs, fname, **kw)
         m = ctx.model("c11_murphy_thetas", enc_list([enc_list([core.enc_nums(flat(f)) for f in fcsts]), core.enc_nums(flat(obs)), enc_str(fname),
                                                      enc_opt(huber_a, enc_num), enc_opt(delta, enc_num)]))
@@ -359,9 +387,12 @@ def diagram_props(ctx, rounds):
         kw = {"huber_a": float(a)} if fn == "huber" else {}
         if delta is not None:
             kw["left_limit_delta"] = float(delta)
-        th = [Fr(float(x)) for x in C.murphy_thetas(fcsts, obs, fn, **kw)]
         case = {"forecasts": fvals, "obs": ovals, "functional": fn, "alpha": alpha, "huber_a": a, "left_limit_delta": delta}
         ctx.case(("diagram", repr(case)))
+        th = must(ctx, case, C.murphy_thetas, fcsts, obs, fn, **kw)
+        if th is None:
+            continue
+        th = [Fr(float(x)) for x in th]
         if any(x >= y for x, y in zip(th, th[1:])):
             ctx.violation("murphy_thetas not strictly increasing", case, "sorted unique", th)
             continue
@@ -381,7 +412,9 @@ def diagram_props(ctx, rounds):
         if fn == "huber":
             mkw["huber_a"] = float(a)
         for si, fc in enumerate(fcsts):
-            r = C.murphy_score(fc, obs, [float(p) for p in pts], **mkw)
+            r = must(ctx, dict(case, source=si, thetas=pts), C.murphy_score, fc, obs, [float(p) for p in pts], **mkw)
+            if r is None:
+                break
             tot = r["total"].transpose("theta", "x").values
             ov = r["overforecast"].transpose("theta", "x").values
             un = r["underforecast"].transpose("theta", "x").values
@@ -604,7 +637,10 @@ def oracle_grid(ctx):
         for alpha in (Fr(1, 4), Fr(3, 4)):
             a = Fr(1)
             kw = {"huber_a": float(a)} if fn == "huber" else {}
-            r = C.murphy_score(F, O, [float(t) for t in th], functional=fn, alpha=float(alpha), decomposition=True, preserve_dims="all", **kw)
+            r = must(ctx, {"fn": "murphy_score", "fcst, obs": "tie grid k/2, +-inf", "thetas": th}, C.murphy_score, F, O, [float(t) for t in th], functional=fn,
+                     alpha=float(alpha), decomposition=True, preserve_dims="all", **kw)
+            if r is None:
+                continue
             arr = [r[k].transpose("theta", "x").values for k in NAMES]
             for j, t in enumerate(th):
                 for i, (f, o) in enumerate(pts):
@@ -645,6 +681,11 @@ def oracle_means(ctx, n):
         p_inf = 0.2 if rng.random() < 0.34 else 0.0
         val = lambda: rng.choice([INF, -INF]) if rng.random() < p_inf else Fr(rng.randint(-6, 6), 2)      # noqa: E731
         fv = [[None if rng.random() < 0.15 else val() for _ in range(nb)] for _ in range(na)]
+        # every fourth case: the forecast lacks dimension a (one standing forecast per b against observations over a x b): a is a dimension
+        # only the observations have, averaged out by default, reducible / preservable by name
+        fsub = rng.random() < 0.25
+        if fsub:
+            fv = [list(fv[0]) for _ in range(na)]
         ov = [None if rng.random() < 0.15 else val() for _ in range(nb)]
         if rng.random() < 0.5:            # exact hits fcst == obs among the pairs
             l = rng.randrange(nb)
@@ -652,7 +693,9 @@ def oracle_means(ctx, n):
         pa, pb, pbo, pbt = (rng.sample(range(na), na), rng.sample(range(nb), nb), rng.sample(range(nb), nb), rng.sample(range(nb), nb))
         fl = lambda v: NAN if v is None else float(v)      # noqa: E731
         F = xr.DataArray([[fl(fv[i][l]) for l in pb] for i in pa], dims=["a", "b"], coords={"a": pa, "b": pb})
-        full = rng.random() < 0.5         # obs on both dimensions (own storage order) or on b only
+        if fsub:
+            F = xr.DataArray([fl(fv[0][l]) for l in pb], dims=["b"], coords={"b": pb})
+        full = fsub or rng.random() < 0.5         # obs on both dimensions (own storage order) or on b only
         if full:
             ovf = [[None if rng.random() < 0.15 else (fv[i][l] if rng.random() < 0.2 else val()) for l in range(nb)] for i in range(na)]
             pao = rng.sample(range(na), na)
@@ -674,19 +717,39 @@ def oracle_means(ctx, n):
             thetas = xr.DataArray([[fl(row[l]) for l in pbt] for row in TH], dims=["theta", "b"], coords={"b": pbt})
         red = rng.choice([None, ["a"], ["b"], ["a", "b"]])
         kw = {"huber_a": float(a)} if fn == "huber" else {}
-        if red is not None:
+        as_preserve = red is not None and rng.random() < 0.4      # the same request spelled as preserve_dims (the complement)
+        if as_preserve:
+            kw["preserve_dims"] = [d for d in ("a", "b") if d not in red]
+        elif red is not None:
             kw["reduce_dims"] = red
         rset = {"a", "b"} if red is None else set(red)
-        case = {"fcst[a][b]": fv, "obs[a][b]" if full else "obs[b]": ovf if full else ov, "thetas": [[None if x is None else x for x in row] for row in TH] if mode != "list" else th, "thetas_as": mode,
+        case = {"fcst[b] (no dimension a)" if fsub else "fcst[a][b]": fv[0] if fsub else fv, "preserve_dims": kw.get("preserve_dims"), "obs[a][b]" if full else "obs[b]": ovf if full else ov, "thetas": [[None if x is None else x for x in row] for row in TH] if mode != "list" else th, "thetas_as": mode,
                 "functional": fn, "alpha": alpha, "huber_a": a, "reduce_dims": red, "storage_order": {"fcst.a": pa, "fcst.b": pb, "obs.b": pbo, "thetas.b": pbt}}
         ctx.case(("orcmean", repr(case)))
         ctx.count("oracle_means:" + mode)
         has_inf = any(isinf(v) for row in fv + ovf + TH for v in row)
         if has_inf:
             ctx.count("oracle_means:infinite")
+        if fsub:
+            ctx.count("oracle_means:obs-only-dim")
         st, r = core.call_impl(C.murphy_score, F, O, thetas, functional=fn, alpha=float(alpha), decomposition=True, **kw)
         if st != "ok":
             ctx.violation("murphy_score raised on valid input", case, "values", r)
+            continue
+        want_dims = {"theta"} | ({"a", "b"} - rset)
+        if any(set(r[name].dims) != want_dims for name in NAMES):
+            ctx.violation("murphy_score: dimensions of the result are not theta + the preserved dimensions (a dimension was left un-averaged / dropped)",
+                          case, sorted(want_dims), {name: list(r[name].dims) for name in NAMES})
+            continue
+        # decomposition omitted == decomposition=False written out == the total of the decomposition (and only that variable)
+        st0, r0 = core.call_impl(C.murphy_score, F, O, thetas, functional=fn, alpha=float(alpha), **kw)
+        st1, r1 = core.call_impl(C.murphy_score, F, O, thetas, functional=fn, alpha=float(alpha), decomposition=False,
+                                 **dict({"huber_a": None, "reduce_dims": None, "preserve_dims": None}, **kw))
+        if not (st0 == st1 == "ok" and list(r0.data_vars) == list(r1.data_vars) == ["total"] and r0.identical(r1)
+                and r0["total"].transpose(*r["total"].dims).equals(r["total"])):
+            ctx.violation("murphy_score with the optional arguments omitted differs from the call with the documented defaults written out "
+                          "(decomposition=False, huber_a / reduce_dims / preserve_dims None: the total only, equal to the total of the decomposition)",
+                          case, "variables ['total'], equal", {"omitted": str(r0)[:200], "written out": str(r1)[:200]})
             continue
         bad = False
         for k, name in enumerate(NAMES):
@@ -846,7 +909,10 @@ def fine_thetas(ctx, n):
             for t1, t2 in zip(th, th[1:]):
                 pts += [t1, t1 + (t2 - t1) / 4, t1 + (t2 - t1) / 2]
             alpha = rng.choice(ALPHAS)
-            r = C.murphy_score(fcsts[0], obs, [float(p) for p in pts], functional=fn, alpha=float(alpha), preserve_dims="all", **({"huber_a": float(a)} if fn == "huber" else {}))
+            r = must(ctx, dict(case, thetas=[float(p) for p in pts]), C.murphy_score, fcsts[0], obs, [float(p) for p in pts], functional=fn, alpha=float(alpha),
+                     preserve_dims="all", **({"huber_a": float(a)} if fn == "huber" else {}))
+            if r is None:
+                continue
             tot = r["total"].transpose("theta", "x").values
             for j in range(len(th) - 1):
                 for q in range(m):
@@ -882,6 +948,72 @@ def label_sets_corpus(ctx):
 
 
 
+def defaults_corpus(ctx):
+    """DEFAULTS: every optional argument of murphy_score (huber_a=None, decomposition=False, reduce_dims=None, preserve_dims=None) and of
+    murphy_thetas (huber_a=None, left_limit_delta=None, treated as 0) OMITTED gives exactly the call with the documented default written
+    out, and the exact oracle of that default: the total only, averaged over every dimension of forecast AND observations (the
+    observations carry a dimension the forecast does not have); the kinks with the left-limit points at the forecasts themselves"""
+    C = S()
+    fv = [Fr(0), Fr(2), Fr(3, 2)]
+    ov = [[Fr(1), Fr(2), Fr(-1, 2)], [Fr(3), None, Fr(3, 2)]]
+    F = xr.DataArray([float(v) for v in fv], dims=["b"], coords={"b": [0, 1, 2]})
+    O = xr.DataArray([[NAN if v is None else float(v) for v in row] for row in ov], dims=["t", "b"], coords={"t": [0, 1], "b": [0, 1, 2]})
+    th = [Fr(-1), Fr(0), Fr(1, 2), Fr(1), Fr(7, 4), Fr(2), Fr(5, 2), Fr(3)]
+    alpha, a = Fr(1, 4), Fr(1)
+    for fn in FUNCS:
+        hk = {"huber_a": float(a)} if fn == "huber" else {}
+        base = dict(functional=fn, alpha=float(alpha), **hk)
+        written = dict({"huber_a": None}, **base, decomposition=False, reduce_dims=None, preserve_dims=None)
+        st0, r0 = core.call_impl(C.murphy_score, F, O, [float(t) for t in th], **base)
+        st1, r1 = core.call_impl(C.murphy_score, F, O, [float(t) for t in th], **written)
+        case = {"fn": "murphy_score", "fcst[b]": fv, "obs[t][b]": ov, "thetas": th, "functional": fn, "alpha": alpha, "huber_a": a if hk else None}
+        ctx.case(("defaults", "murphy_score", fn))
+        ctx.count("defaults_corpus")
+        want = [sum(orc_es(fn, alpha, a, fv[l], ov[i][l], t)[0] for i in range(2) for l in range(3) if ov[i][l] is not None) / 5 for t in th]
+        if st0 != "ok" or st1 != "ok":
+            ctx.violation("murphy_score raised with the optional arguments omitted / at their documented defaults", case, "values", r0 if st0 != "ok" else r1)
+        elif not (list(r0.data_vars) == ["total"] and r0["total"].dims == ("theta",) and r0.identical(r1)
+                  and all(core.close(float(g), w) for g, w in zip(r0["total"].values, want))):
+            ctx.violation("murphy_score with the optional arguments omitted is not the documented default (total only, mean over every dimension of "
+                          "forecast and observations)", case, {"variables": ["total"], "dims": ["theta"], "total": want},
+                          {"variables": list(r0.data_vars), "dims": list(r0["total"].dims), "total": np.asarray(r0["total"].values).ravel()[:12].tolist(),
+                           "identical_to_written_out": bool(r0.identical(r1))})
+        # each reduction request, omitted vs named: preserving b == reducing t; naming the observation-only dimension is valid
+        for kw, keep in (({"preserve_dims": ["b"]}, "b"), ({"reduce_dims": ["t"]}, "b"), ({"reduce_dims": "t"}, "b"), ({"preserve_dims": "t"}, "t"), ({"reduce_dims": ["b"]}, "t")):
+            st, r = core.call_impl(C.murphy_score, F, O, [float(t) for t in th], decomposition=True, **base, **kw)
+            ctx.case(("defaults", "murphy_score", fn, repr(kw)))
+            if st != "ok" or any(set(r[n].dims) != {"theta", keep} for n in NAMES):
+                ctx.violation("murphy_score: a dimension only the observations have is not reduced / preserved as requested", dict(case, **kw),
+                              ["theta", keep], r if st != "ok" else {n: list(r[n].dims) for n in NAMES})
+                continue
+            for k, name in enumerate(NAMES):
+                got = r[name].transpose("theta", keep).values
+                for j, t in enumerate(th):
+                    for c in range(3 if keep == "b" else 2):
+                        cells = [(i, c) for i in range(2)] if keep == "b" else [(c, l) for l in range(3)]
+                        vals = [orc_es(fn, alpha, a, fv[l], ov[i][l], t)[k] for i, l in cells if ov[i][l] is not None]
+                        if not core.close(float(got[j][c]), mean_ext(vals)):
+                            ctx.violation("murphy_score: mean over a dimension only the observations have differs from the mean elementary score",
+                                          dict(case, **kw, variable=name, theta=t, label=c), mean_ext(vals), float(got[j][c]))
+                            break
+                    else:
+                        continue
+                    break
+                else:
+                    continue
+                break
+        # murphy_thetas: omitted == None written out == left_limit_delta=0 (documented: None is treated as 0)
+        got = [core.call_impl(C.murphy_thetas, [F], O, fn, **hk), core.call_impl(C.murphy_thetas, [F], O, fn, **dict({"huber_a": None}, **hk), left_limit_delta=None),
+               core.call_impl(C.murphy_thetas, [F], O, fn, left_limit_delta=0, **hk), core.call_impl(C.murphy_thetas, forecasts=[F], obs=O, functional=fn, **hk)]
+        obs_vals = {v for row in ov for v in row if v is not None}
+        need = set(fv) | obs_vals | ({o + a for o in obs_vals} | {o - a for o in obs_vals} if fn == "huber" else set())
+        ctx.case(("defaults", "murphy_thetas", fn))
+        ctx.count("defaults_corpus")
+        if any(g[0] != "ok" or [Fr(float(x)) for x in g[1]] != sorted(need) for g in got):
+            ctx.violation("murphy_thetas with huber_a / left_limit_delta omitted differs from the documented defaults (None, None treated as 0)",
+                          {"fn": "murphy_thetas", "forecasts": [fv], "obs": ov, "functional": fn, **hk}, sorted(need), [str(g[1])[:120] for g in got])
+
+
 def model_available(ctx):
     b = getattr(ctx, "build", None) or {}
     return "C11" not in (b.get("excluded_models") or []) and b.get("files", {}).get("model/C11.v", {}).get("ok", True)
@@ -891,6 +1023,7 @@ def run_without_model(ctx):
     """used when a site no longer translates / the extracted model does not build: implementation-only predicates with the exact
     rational oracle (elementary scores on the tie grid, means with NaN, kink sets, constancy / affinity between thetas, integral, guards)"""
     oracle_grid(ctx)
+    defaults_corpus(ctx)
     ragged_corpus(ctx)
     guard_probes(ctx)
     diagram_props(ctx, ctx.n(40, 2500))
@@ -909,6 +1042,7 @@ def run(ctx):
     kernel_grid(ctx)
     oracle_grid(ctx)
     oracle_means(ctx, ctx.n(100, 3000))
+    defaults_corpus(ctx)
     ragged_corpus(ctx)
     label_sets_corpus(ctx)
     guard_probes(ctx)
